@@ -84,9 +84,27 @@ func (p *Pipe) wwake() {
 
 // Write appends to the in-flight buffer (used by Conn.Write and by scripted
 // peers). With Cap > 0 it blocks while the buffer is full.
-func (p *Pipe) Write(b []byte) (int, error) {
+func (p *Pipe) Write(b []byte) (int, error) { return p.WriteUntil(b, time.Time{}) }
+
+// WriteUntil is Write with a deadline on the virtual clock (zero = none): a
+// writer blocked on a full buffer gives up with ErrTimeout when it passes.
+func (p *Pipe) WriteUntil(b []byte, deadline time.Time) (int, error) {
 	written := 0
+	var tm *time.Timer
+	defer func() {
+		if tm != nil {
+			tm.Stop()
+		}
+	}()
 	for {
+		if !deadline.IsZero() && !time.Now().Before(deadline) && len(b) > 0 {
+			p.mu.Lock()
+			full := p.Cap > 0 && p.Cap-len(p.inflight) <= 0 && p.broken == nil && !p.finSent
+			p.mu.Unlock()
+			if full {
+				return written, ErrTimeout
+			}
+		}
 		p.mu.Lock()
 		if p.broken != nil {
 			err := p.broken
@@ -119,6 +137,13 @@ func (p *Pipe) Write(b []byte) (int, error) {
 		}
 		p.Blocked++
 		p.mu.Unlock()
+		if !deadline.IsZero() && tm == nil {
+			d := time.Until(deadline)
+			if d < 0 {
+				d = 0
+			}
+			tm = time.AfterFunc(d, p.wwake)
+		}
 		<-p.wnotify
 	}
 }
@@ -268,11 +293,12 @@ type Conn struct {
 	in   *Pipe
 	out  *Pipe
 
-	mu       sync.Mutex
-	closed   bool
-	closeCh  chan struct{}
-	deadline time.Time
-	dlGen    int
+	mu        sync.Mutex
+	closed    bool
+	closeCh   chan struct{}
+	deadline  time.Time
+	wdeadline time.Time
+	dlGen     int
 
 	Fault   FaultFn
 	MaxRead int // upper bound of bytes returned per Read (0 = no bound)
@@ -377,12 +403,12 @@ func (c *Conn) Write(b []byte) (int, error) {
 		return 0, err
 	}
 	c.mu.Lock()
-	closed := c.closed
+	closed, wd := c.closed, c.wdeadline
 	c.mu.Unlock()
 	if closed {
 		return 0, ErrClosed
 	}
-	return c.out.Write(b)
+	return c.out.WriteUntil(b, wd)
 }
 
 func (c *Conn) Close() error {
@@ -424,10 +450,18 @@ func (c *Conn) SetReadDeadline(t time.Time) error {
 	return nil
 }
 
-func (c *Conn) SetDeadline(t time.Time) error      { return c.SetReadDeadline(t) }
-func (c *Conn) SetWriteDeadline(time.Time) error   { return nil }
-func (c *Conn) LocalAddr() net.Addr                { return addr(c.name) }
-func (c *Conn) RemoteAddr() net.Addr               { return addr(c.name + ".peer") }
+func (c *Conn) SetDeadline(t time.Time) error {
+	_ = c.SetWriteDeadline(t)
+	return c.SetReadDeadline(t)
+}
+func (c *Conn) SetWriteDeadline(t time.Time) error {
+	c.mu.Lock()
+	c.wdeadline = t
+	c.mu.Unlock()
+	return nil
+}
+func (c *Conn) LocalAddr() net.Addr  { return addr(c.name) }
+func (c *Conn) RemoteAddr() net.Addr { return addr(c.name + ".peer") }
 
 type addr string
 
